@@ -25,7 +25,7 @@ def plan(tier):
                 'sendall (successes, each error class, parse failures, authentication failures, unsupported '
                 'versions, stale/future time stamps, asynchronous/UNDO requests, oversize replacement) is '
                 'checked against the envelope rules; a cell is (source, class or operation, version, outcome)',
-        'min_monitor': {'encodings_validated': 5000, 'primitives_compared_with_reference': 150, 'primitive_writes_observed': 50000,
+        'min_monitor': {'encodings_validated': 5000, 'primitives_compared_with_reference': 150, 'primitive_writes_observed': 50000, 'built_responses_validated': 200,
                         'responses_validated': 400, 'error_responses_validated': 100},
         'assumptions': ['kv/ttlv_ref.py transcribes KMIP 1.x section 9.1',
                         'a reply to a request the session did not decode may carry version 1.0',
@@ -41,6 +41,7 @@ def cases(tier, seed):
         cs.append({'classes': keys[i:i + 8]})
     n = 96 if tier == 'quick' else 480
     cs += [{'session': i} for i in range(n)]
+    cs += [{'built': i} for i in range(4 if tier == 'quick' else 32)]
     return cs
 
 
@@ -175,7 +176,66 @@ def run_case(ctx, case):
         _run_case(ctx, case)
 
 
+def run_built(ctx, case):
+    """What a server built on the library emits for the result statuses PyKMIP's own engine never produces: response
+    messages composed from the message classes with every Result Status (Success, Operation Failed, Operation Pending,
+    Operation Undone) x Result Reason x message, with and without payload, id and asynchronous correlation value, under
+    every version - the envelope rules hold for these bytes as well."""
+    from kmip.core.messages import contents, messages, payloads
+    rng = ctx.rng()
+    for _ in range(120):
+        version = rng.choice(rig.VERSIONS)
+        items, planned = [], []
+        for j in range(rng.randrange(1, 5)):
+            st = rng.choice(list(E.ResultStatus))
+            failed = st != E.ResultStatus.SUCCESS
+            reason = rng.choice(list(E.ResultReason)) if failed else None
+            msg = rng.choice(('', 'x', 'message text', 'm' * 8, 'm' * 31)) if failed else None
+            payload = None
+            op = rng.choice((E.Operation.DESTROY, E.Operation.ACTIVATE, E.Operation.GET_ATTRIBUTE_LIST, None))
+            if not failed and op == E.Operation.DESTROY:
+                payload = payloads.DestroyResponsePayload(unique_identifier=rig.attrs.UniqueIdentifier('7'))
+            elif not failed and op == E.Operation.ACTIVATE:
+                payload = payloads.ActivateResponsePayload(unique_identifier=rig.attrs.UniqueIdentifier('8'))
+            else:
+                op = op if (failed and rng.random() < 0.7) else None
+            items.append(messages.ResponseBatchItem(
+                operation=contents.Operation(op) if op is not None else None,
+                unique_batch_item_id=contents.UniqueBatchItemID(b'id-%d' % j) if rng.random() < 0.6 else None,
+                result_status=contents.ResultStatus(st),
+                result_reason=contents.ResultReason(reason) if reason is not None else None,
+                result_message=contents.ResultMessage(msg) if msg is not None else None,
+                async_correlation_value=contents.AsynchronousCorrelationValue(b'corr-%d' % j)
+                if (st == E.ResultStatus.OPERATION_PENDING and rng.random() < 0.7) else None,
+                response_payload=payload))
+            planned.append(st.name)
+        header = messages.ResponseHeader(protocol_version=rig.pv(version), time_stamp=contents.TimeStamp(1600000000),
+                                         batch_count=contents.BatchCount(len(items)))
+        try:
+            data = rig.encode_response(messages.ResponseMessage(response_header=header, batch_items=items), version)
+        except Exception as e:
+            ctx.count('built_response_not_encodable')
+            continue
+        ctx.ev()
+        ctx.count('built_responses_validated')
+        ctx.count('encodings_validated')
+        for st_ in planned:
+            ctx.cell('built', st_, '%d.%d' % version)
+        err = T.validate(data)
+        if err is not None:
+            ctx.violation('%s|ResponseMessage' % err.rule, 'a response composed from the message classes is not well-formed TTLV: %s' % err,
+                          {'hex': data.hex()[:600]})
+            continue
+        info, problems = T.check_response_envelope(data)
+        for rule, text in problems:
+            ctx.violation('%s|built' % rule,
+                          'a response composed from the message classes (item statuses %s) violates the envelope: %s' % (planned, text),
+                          {'hex': data.hex()[:800], 'version': version})
+
+
 def _run_case(ctx, case):
+    if 'built' in case:
+        return run_built(ctx, case)
     if 'prim' in case:
         run_prims(ctx)
     elif 'classes' in case:
